@@ -272,7 +272,9 @@ def run(prog, tier, res):
         for b2, t2 in body.calls():
             for a in t2["args"]:
                 x = strip(an.terms.operand(a))
-                if x[0] == "call" and x[3] == bb and short(x[1]) in ("Index::index",):
+                if x[0] == "field" and x[2] == 0 and strip(x[1])[0] == "downcast" and strip(x[1])[2] == "Some":
+                    x = strip(strip(x[1])[1])            # payload of `chunks.first()`
+                if x[0] == "call" and x[3] == bb and short(x[1]) in ("Index::index", "<impl [T]>::first"):
                     consumers.append(cname(t2))
         if not consumers:
             return False
@@ -307,7 +309,7 @@ def run(prog, tier, res):
                 (s == "Index::index" and base_is_chunks(args[0])):
             res.hit(R1)
             if not after_sort(bb):
-                is_first = s == "Index::index" and strip(args[1]) == ("const", 0, "usize")
+                is_first = (s == "Index::index" and strip(args[1]) == ("const", 0, "usize")) or s == "<impl [T]>::first"
                 if feeds_only_err(an, bb) or (is_first and first_chunk_ok(bb)):
                     continue
                 res.violate(R1, FN, "elem-access:%s" % site,
